@@ -24,7 +24,19 @@ from unified_planning.model.fnode import FNode
 from unified_planning.model.operators import OperatorKind
 from unified_planning.exceptions import UPTypeError
 from typing import List, Optional, cast
-import math
+
+
+def _bound_product(a, b):
+    """
+    Product of two interval bounds. A bound is an `int`, a `Fraction` or
+    `float("inf")`/`-float("inf")` (unbounded side). Finite bounds are multiplied
+    exactly, never through floats; `0 * inf` is `0`, the bound of `x * y` when `x` is `0`.
+    """
+    if not isinstance(a, float) and not isinstance(b, float):
+        return a * b
+    if a == 0 or b == 0:
+        return 0
+    return float("inf") if (a > 0) == (b > 0) else -float("inf")
 
 
 class TypeChecker(walkers.dag.DagWalker):
@@ -229,22 +241,25 @@ class TypeChecker(walkers.dag.DagWalker):
                 has_real = True
         if is_time:
             return TIME
+        # bounds are summed exactly; an unbounded operand makes that side unbounded
+        lower_unbounded = False
+        upper_unbounded = False
         for x in args:
             if x.lower_bound is None:
-                lower = -float("inf")
+                lower_unbounded = True
             elif lower is None:
                 lower = x.lower_bound
             else:
                 lower += x.lower_bound
             if x.upper_bound is None:
-                upper = float("inf")
+                upper_unbounded = True
             elif upper is None:
                 upper = x.upper_bound
             else:
                 upper += x.upper_bound
-        if lower == -float("inf"):
+        if lower_unbounded:
             lower = None
-        if upper == float("inf"):
+        if upper_unbounded:
             upper = None
         if has_real:
             assert lower is None or isinstance(lower, Fraction)
@@ -272,16 +287,11 @@ class TypeChecker(walkers.dag.DagWalker):
             return TIME
         left = args[0]
         right = args[1]
-        left_lower = -float("inf") if left.lower_bound is None else left.lower_bound
-        left_upper = float("inf") if left.upper_bound is None else left.upper_bound
-        right_lower = -float("inf") if right.lower_bound is None else right.lower_bound
-        right_upper = float("inf") if right.upper_bound is None else right.upper_bound
-        lower = left_lower - right_upper
-        upper = left_upper - right_lower
-        if lower == -float("inf"):
-            lower = None
-        if upper == float("inf"):
-            upper = None
+        # exact differences; None (unbounded) when one of the two bounds involved is None
+        if left.lower_bound is not None and right.upper_bound is not None:
+            lower = left.lower_bound - right.upper_bound
+        if left.upper_bound is not None and right.lower_bound is not None:
+            upper = left.upper_bound - right.lower_bound
         if has_real:
             lower = cast(Optional[Fraction], lower)
             upper = cast(Optional[Fraction], upper)
@@ -310,16 +320,17 @@ class TypeChecker(walkers.dag.DagWalker):
                 assert upper is not None
                 # both bounds must be computed from the same products: assigning
                 # lower first and reusing it for upper overestimates the latter.
-                products = (lower * l, lower * u, upper * l, upper * u)
+                products = (
+                    _bound_product(lower, l),
+                    _bound_product(lower, u),
+                    _bound_product(upper, l),
+                    _bound_product(upper, u),
+                )
                 lower = min(products)
                 upper = max(products)
-        if lower == -float("inf") or (
-            lower is not None and math.isnan(cast(float, lower))
-        ):
+        if lower == -float("inf"):
             lower = None
-        if upper == float("inf") or (
-            upper is not None and math.isnan(cast(float, upper))
-        ):
+        if upper == float("inf"):
             upper = None
         if has_real:
             lower = cast(Optional[Fraction], lower)
@@ -345,19 +356,15 @@ class TypeChecker(walkers.dag.DagWalker):
         if to_skip or right.lower_bound != right.upper_bound:
             pass
         else:
-            left_lower = -float("inf") if left.lower_bound is None else left.lower_bound
-            left_upper = float("inf") if left.upper_bound is None else left.upper_bound
-            right = right.lower_bound
-            lower = min(left_lower / right, left_upper / right)
-            upper = max(left_lower / right, left_upper / right)
-        if lower == -float("inf"):
-            lower = None
-        if upper == float("inf"):
-            upper = None
-        if lower is not None:
-            lower = Fraction(lower)
-        if upper is not None:
-            upper = Fraction(upper)
+            # exact rational quotients of the bounds by the constant divisor;
+            # a negative divisor swaps the two sides, an unbounded side stays unbounded
+            divisor = Fraction(right.lower_bound)
+            if left.lower_bound is not None:
+                lower = Fraction(left.lower_bound) / divisor
+            if left.upper_bound is not None:
+                upper = Fraction(left.upper_bound) / divisor
+            if divisor < 0:
+                lower, upper = upper, lower
         return self.environment.type_manager.RealType(lower, upper)
 
     @walkers.handles(OperatorKind.LE, OperatorKind.LT)
